@@ -578,7 +578,9 @@ class TimeSeries:
                 y2[t2 > t1[-1]] = v1[-1]
                 return y2
             elif method == "previous":
-                return scipy.interpolate.interp1d(t1, v1, kind="previous", copy=False, assume_sorted=True, bounds_error=False, fill_value=(v1[0], v1[-1]))(t2)
+                # The requested times may contain floating point noise (e.g. 2001.9999999999998 instead of 2002.0 in a simulation time vector, depending on the simulation start year)
+                # so a small tolerance is used to make sure that a value entered for a particular year takes effect at the time point that coincides with that year
+                return scipy.interpolate.interp1d(t1, v1, kind="previous", copy=False, assume_sorted=True, bounds_error=False, fill_value=(v1[0], v1[-1]))(t2 + 1e-9)
             else:
                 raise Exception('Unknown interpolation type - must be one of "linear", "pchip", or "previous"')
 
